@@ -362,7 +362,7 @@ def main(argv=None):
                 it = vpool.imap(_validate_task, [(prop, c) for c in cfgs], chunksize=1)
                 for _ in cfgs:
                     try:
-                        n1, e1, rep1 = it.next(timeout=max(60.0, deadline - time.time()))
+                        n1, e1, rep1 = it.next(timeout=max(5.0, deadline - time.time()))
                     except mp.TimeoutError:
                         err = err or "model validation did not finish within the time budget (worker lost or stuck)"
                         vpool.terminate()
@@ -377,6 +377,13 @@ def main(argv=None):
                 err = "model validation crashed: %s\n%s" % (ex, traceback.format_exc()[-1200:])
     if err:
         inconclusive.append(err)
+    if fixture_violations and not patches:
+        known_keys = KNOWN_KEYS(H)
+        if any(v["key"] not in known_keys for v in fixture_violations):
+            # the real code already violates the property on a concrete fixture: that verdict stands.  The solver paths get
+            # one more minute (they often add a more telling input); code that violates a property can also make the
+            # exploration arbitrarily expensive, and a violation must not wait for that
+            deadline = min(deadline, time.time() + 60)
 
     # ---- symbolic exploration, two phases (split large path trees over the pool)
     ctxmp = mp.get_context("fork")
